@@ -569,6 +569,7 @@ def known_flavour(c, flavour):
 
 @contract(RUN + "meta_runner:MetaRunner.register_payload", props=["C03"])
 class meta_register:
+    announce = True
     """with a runner for the flavour: every payload is handed to THAT runner exactly once, in order, and nothing is queued;
     before the runners exist: the payloads are appended to the flavour's queue, in order; for the three flavours of the
     runtime it never raises, in any state"""
@@ -857,3 +858,117 @@ class adopt_services:
             },
         )
     }
+
+
+# ================================================================================ queue flush (C03)
+@contract(RUN + "meta_runner:MetaRunner._unqueue_payloads#body", props=["C03"], body_key=RUN + "meta_runner:MetaRunner._unqueue_payloads")
+class unqueue_payloads:
+    """after launch every queue is handed - as one call, in queue order - to register_payload under ITS OWN flavour, then
+    emptied; finally no queue is left (so nothing can be registered twice)"""
+    params = dict(self=MetaR)
+    has_events = True
+
+    def requires(c, self):
+        return c.And(flag(self.running, "isset"), self._runner_queues.wf())
+
+    def writes(c, self):
+        return [("all", f, lambda x: True) for f in HEAPS]
+
+    def ensures(c, self):
+        return {"no-queue-left": self._runner_queues.keys.len == 0}
+
+    # a queued flavour without runner is reported (RuntimeError from register_payload); the runtime's own flavours never raise
+    raises = {"RuntimeError": lambda c, self, exc: True}
+
+    loops = {
+        0: Loop(
+            inv=lambda c, L, i: {"same-queues-object": c.unchanged(L.self, "_runner_queues", "_runners", "running", "_logger")},
+            modifies=lambda c, L: [("trace",)] + [("all", f, lambda x: x != L.self._runner_queues.id) for f in ("$len", "$item")] + [("all", f, lambda x: x != L.self._runner_queues.id) for f in ("$mhas", "$mval")],
+            local_types={"flavour": TAny(), "queue": QueueList},
+            step=lambda c, L, L0: {
+                "the-whole-queue-goes-to-register_payload-under-its-own-flavour": c.event_at(0) == c.event("call", RUN + "meta_runner:MetaRunner.register_payload", L.self, L.queue, L.flavour),
+                "then-the-queue-is-emptied": L.queue.len == 0,
+            },
+        )
+    }
+
+
+# ================================================================================ launch (C03, C11)
+TRIO_CLS = RUN + "trio_runner:TrioRunner"
+
+
+def runner_ready(c, r):
+    """a runner is ready to accept payloads: register_payload's precondition holds (trio: token and channel are set)"""
+    tok = z3.Select(c.ctx.rd(c.new_heap, "_trio_token"), r.id)
+    ch = z3.Select(c.ctx.rd(c.new_heap, "_submit_tasks"), r.id)
+    return c.Implies(r.cls_is(TRIO_CLS), c.And(c.Not(Z.is_none(tok)), c.Not(Z.is_none(ch))))
+
+
+def published_runners_ready(c, self):
+    """published-state invariant of MetaRunner: every runner reachable through `_runners` - which other threads read in
+    adopt()/execute() at ANY time - is ready to accept payloads"""
+    rm = self._runners
+    out = {}
+    for name, t in zip(("trio", "asyncio", "threading"), flavour_terms(c)):
+        out["a-published-%s-runner-is-ready" % name] = c.Implies(rm.has(t), runner_ready(c, rm[t]))
+    return out
+
+
+@contract(RUN + "meta_runner:MetaRunner._launch_runners#body", props=["C03", "C11"], body_key=RUN + "meta_runner:MetaRunner._launch_runners")
+class launch_runners_body:
+    """creates one runner per flavour on the ONE loop this coroutine runs on, starts each runner's run() as a task of that
+    loop, waits until each is ready, and only then lets other threads see them"""
+    params = dict(self=MetaR)
+    has_events = True
+    result = TaskList
+
+    def requires(c, self):
+        return published_runners_ready(c, self).get("x", True) if False else c.And(*published_runners_ready(c, self).values())
+
+    def writes(c, self):
+        return [(self, "_runners")] + [("all", f, lambda x: True) for f in HEAPS]
+
+    published = lambda c, self: published_runners_ready(c, self)
+
+    def ensures(c, self, result):
+        rm = self._runners
+        loop = z3.Const("the_running_loop", Z.Val)
+        out = {"three-tasks": result.len == 3}
+        for name, t in zip(("trio", "asyncio", "threading"), flavour_terms(c)):
+            out["a-%s-runner-on-the-running-loop" % name] = c.And(rm.has(t), z3.Select(c.ctx.rd(c.new_heap, "asyncio_loop"), rm[t].id) == loop)
+        return out
+
+    raises = {"asyncio.CancelledError": lambda c, self, exc: True}
+
+
+@contract(RUN + "trio_runner:TrioRunner.ready", props=["C03", "C11"], skip_body=True, kind="abstract")
+class trio_ready:
+    """RELY (the matching guarantee is proved on _manage_payloads_trio: it schedules `_ready.set` only AFTER storing the
+    token and the channel): ready() returns only once the trio thread has published them"""
+    params = dict(self=TObj(TRIO_CLS))
+    has_events = True
+
+    def writes(c, self):
+        return [(self, "_trio_token"), (self, "_submit_tasks")]
+
+    def ensures(c, self):
+        tok = z3.Select(c.ctx.rd(c.new_heap, "_trio_token"), self.id)
+        ch = z3.Select(c.ctx.rd(c.new_heap, "_submit_tasks"), self.id)
+        return c.And(c.Not(Z.is_none(tok)), c.Not(Z.is_none(ch)))
+
+    def emits(c, ctx, self):
+        ctx.emit("ready", self)
+
+    raises = {"asyncio.CancelledError": lambda c, self, exc: True}
+
+
+@contract(RUN + "base_runner:BaseRunner.ready", props=["C03"], skip_body=True, kind="abstract")
+class base_ready:
+    """RELY (asyncio scheduling, assumed): the runner's run() task, created before, has started by the time ready() is
+    awaited after a suspension point (tasks start FIFO once the creating task suspends; the trio runner, whose ready()
+    suspends, comes first in runner_types), so the assertion `not _stopped` in the body holds; returns None"""
+    params = dict(self=BaseR)
+    has_events = True
+
+    def emits(c, ctx, self):
+        ctx.emit("ready", self)
